@@ -38,7 +38,7 @@ func C16(r *core.Run) {
 	rule164(r, mws)
 	rule165(r)
 	rule166(r, mws)
-	rule167(r)
+	rule167(r, mws)
 	rule096(r)
 }
 
@@ -196,16 +196,14 @@ func rule162(r *core.Run, mws []hostMW) {
 				stores = append(stores, in)
 			}
 		})
-		nexts := r.P.CallsIn(m.serve, false, core.NameIs("invoke:net/http.Handler.ServeHTTP"))
 		plain := 0
-		for _, c := range nexts {
-			args := c.Common().Args
-			if len(args) != 2 || args[1] != rq {
+		for _, fw := range forwards(r, m.serve) {
+			if fw.val != rq {
 				continue
 			}
 			dirty := false
 			for _, st := range stores {
-				if core.Reaches(st, c.(ssa.Instruction)) {
+				if reachesAt(st, fw.at) {
 					dirty = true
 				}
 			}
@@ -263,7 +261,7 @@ func rule163(r *core.Run, mws []hostMW) {
 					continue
 				}
 				for _, a := range c.Common().Args {
-					as := r.P.SliceOf(a, core.SliceOpts{})
+					as := r.P.SliceOf(a, core.SliceOpts{BindParams: true})
 					if as.Has("field:net/url.URL.Path") {
 						bad = cn + " applied to the incoming path at " + pos(r, c.(ssa.Instruction))
 					}
@@ -549,19 +547,16 @@ func rule166(r *core.Run, mws []hostMW) {
 				stores = append(stores, in)
 			}
 		})
-		nexts := r.P.CallsIn(m.serve, false, core.NameIs("invoke:net/http.Handler.ServeHTTP"))
-		for i, c := range nexts {
-			args := c.Common().Args
-			if len(args) != 2 {
-				continue
-			}
-			marked := false
-			if cc, ok := args[1].(*ssa.Call); ok && mark != nil && core.StaticCallee(cc) == mark {
-				marked = true
-			}
+		for _, fw := range forwards(r, m.serve) {
+			marked := isMarked(r, fw.val, mark, 0)
 			_ = rq
 			rewritten := false
-			always := !core.ReachableFromEntryAvoiding(c.(ssa.Instruction), func(in ssa.Instruction) bool {
+			for _, st := range stores {
+				if reachesAt(st, fw.at) {
+					rewritten = true
+				}
+			}
+			always := rewritten && !core.ReachableFromEntryAvoiding(fw.at, func(in ssa.Instruction) bool {
 				for _, st := range stores {
 					if in == st {
 						return true
@@ -569,13 +564,8 @@ func rule166(r *core.Run, mws []hostMW) {
 				}
 				return false
 			})
-			for _, st := range stores {
-				if core.Reaches(st, c.(ssa.Instruction)) {
-					rewritten = true
-				}
-			}
 			ok := (marked && always) || (!marked && !rewritten)
-			r.Check(ok, "R16.6", key(name, "mark agrees with rewrite", sprintf("#%d", i)), pos(r, c.(ssa.Instruction)),
+			r.Check(ok, "R16.6", key(name, "mark agrees with rewrite", fw.idx), pos(r, fw.call.(ssa.Instruction)),
 				sprintf("marked=%v rewritten-on-all-paths=%v", marked, always), sprintf("the request is forwarded marked=%v although its path was rewritten on %s paths: the Location of a completed upload takes the wrong form", marked, map[bool]string{true: "some or all", false: "no"}[rewritten]))
 		}
 	}
@@ -598,77 +588,267 @@ func rule166(r *core.Run, mws []hostMW) {
 		ph, ok := st.Val.(*ssa.Phi)
 		var conds []ssa.Value
 		if ok {
+			// the guards that distinguish the incoming edges (not the ones common to all of them)
+			count := map[core.Guard]int{}
 			for _, pred := range ph.Block().Preds {
 				for _, g := range core.GuardsOf(pred.Instrs[len(pred.Instrs)-1]) {
+					count[g]++
+				}
+				// the edge's own branch, when the predecessor ends in an If
+				if iff, ok := pred.Instrs[len(pred.Instrs)-1].(*ssa.If); ok {
+					conds = append(conds, iff.Cond)
+				}
+			}
+			for g, k := range count {
+				if k < len(ph.Block().Preds) {
 					conds = append(conds, g.If.Cond)
 				}
 			}
 		}
-		cs := r.P.SliceOfMany(conds, core.SliceOpts{Depth: 2})
+		cs := r.P.SliceOfMany(conds, core.SliceOpts{Depth: -1})
 		readsOpt := cs.Has("field:gofakes3.GoFakeS3.hostBucket")
 		readsBases := cs.Has("field:gofakes3.GoFakeS3.hostBucketBases")
 		r.Check(!readsOpt || readsBases, "R16.6", key(fname(r, cmu), "Location form follows the request"), pos(r, in),
 			"the Location form is not chosen from an option Server() may have overridden", "the Location form is chosen from GoFakeS3.hostBucket alone, while Server() gives hostBucketBases precedence: with host bases configured a virtual-host request is answered with a Location that names another key on the same server")
+		other := ""
+		for l := range cs.Leaves {
+			switch {
+			case strings.HasPrefix(l, "const:"), l == "call:gofakes3.isHostBucketRequest", l == "field:net/http.Request.TLS",
+				l == "field:gofakes3.GoFakeS3.hostBucket", l == "field:gofakes3.GoFakeS3.hostBucketBases":
+			case strings.HasPrefix(l, "param:"):
+				for _, v := range cs.LeafVals[l] {
+					if t := r.P.TypeShort(v.Type()); t != "*net/http.Request" && t != "*gofakes3.GoFakeS3" {
+						other = l
+					}
+				}
+			default:
+				other = l
+			}
+		}
+		if len(conds) > 0 {
+			r.Check(other == "" && cs.Has("call:gofakes3.isHostBucketRequest"), "R16.6", key(fname(r, cmu), "only the mark decides the Location form"), pos(r, in),
+				"the form is decided by the host-addressed mark alone", "the Location form also depends on "+orStr(other, "something other than the mark set by the middleware that rewrote the request")+": a request that was not rewritten can get the host form (or the reverse), and the Location then names another bucket or key")
+		}
 	})
 	if n == 0 {
 		r.Unresolved("R16.6: no store to CompleteMultipartUploadResult.Location")
 	}
 }
 
-func rule167(r *core.Run) {
-	r.Rule("R16.7", "in the base middleware's matcher every return with ok == true is guarded by a successful strings.HasSuffix(host, base) on a configured base and by a test that the label contains no '.' ; the label is the host minus that base")
-	ctor := mustFunc(r, "gofakes3.(*GoFakeS3).hostBucketBaseMiddleware")
-	if ctor == nil {
+func rule167(r *core.Run, mws []hostMW) {
+	r.Rule("R16.7", "the base middleware rewrites the path only where a strings.HasSuffix(host, base) test on a configured base and a test that the label contains no '.' both guard the rewrite (in the middleware itself or in the matcher function whose verdict guards it); a base that fails the single-label test does not end the search over the bases; the bases come from the option")
+	var m *hostMW
+	for i := range mws {
+		if strings.HasSuffix(fname(r, mws[i].ctor), "hostBucketBaseMiddleware") {
+			m = &mws[i]
+		}
+	}
+	if m == nil {
+		r.Unresolved("R16.7: base middleware not found")
 		return
 	}
-	var fns []*ssa.Function
-	fns = append(fns, ctor.AnonFuncs...)
-	n := 0
-	for _, f := range fns {
-		sig := f.Signature
-		if sig.Results().Len() != 2 || r.P.TypeShort(sig.Results().At(1).Type()) != "bool" || r.P.TypeShort(sig.Results().At(0).Type()) != "string" {
-			continue
+	dotCalls := []string{"strings.IndexByte", "strings.Index", "strings.Contains", "strings.ContainsRune", "strings.Count", "strings.IndexRune", "strings.ContainsAny", "strings.LastIndex", "strings.LastIndexByte", "strings.Cut"}
+	evidence := func(guards []core.Guard) (suffix, nodot bool) {
+		for _, g := range guards {
+			gs := r.P.SliceOf(g.If.Cond, core.SliceOpts{Depth: -1})
+			if gs.HasCallTo("strings.HasSuffix") || gs.HasCallTo("strings.CutSuffix") {
+				suffix = true
+			}
+			for _, cn := range dotCalls {
+				if gs.HasCallTo(cn) && (gs.Has("const:46") || gs.Has("const:.")) {
+					nodot = true
+				}
+			}
 		}
-		for _, ret := range core.Returns(f) {
-			k, ok := ret.Results[1].(*ssa.Const)
-			if ok && k.Value != nil && k.Value.Kind() == constant.Bool && !constant.BoolVal(k.Value) {
+		return
+	}
+	n := 0
+	core.Instrs(m.serve, func(in ssa.Instruction) {
+		fld, ok := requestField(r, in)
+		if !ok || fld != "net/url.URL.Path" {
+			return
+		}
+		n++
+		if n > 1 {
+			return // every store is guarded by the same verdict; one instance per middleware
+		}
+		guards := core.GuardsOf(in)
+		suffix, nodot := evidence(guards)
+		early := ""
+		// verdicts computed elsewhere: a matcher function or closure, or a merged (inlined) verdict
+		for _, g := range guards {
+			v := core.CondOf(g.If.Cond).X
+			if v == nil {
 				continue
 			}
-			n++
-			suffix, nodot := false, false
-			for _, g := range core.GuardsOf(ret) {
-				gs := r.P.SliceOf(g.If.Cond, core.SliceOpts{Depth: -1})
-				if gs.HasCallTo("strings.HasSuffix") || gs.HasCallTo("strings.CutSuffix") {
-					suffix = true
-				}
-				for _, cn := range []string{"strings.IndexByte", "strings.Index", "strings.Contains", "strings.ContainsRune", "strings.Count", "strings.IndexRune", "strings.ContainsAny", "strings.LastIndex", "strings.LastIndexByte"} {
-					if gs.HasCallTo(cn) && (gs.Has("const:46") || gs.Has("const:.")) {
-						nodot = true
+			var call *ssa.Call
+			idx := 0
+			switch x := v.(type) {
+			case *ssa.Extract:
+				call, _ = x.Tuple.(*ssa.Call)
+				idx = x.Index
+			case *ssa.Call:
+				call = x
+			case *ssa.Phi:
+				for k, e := range x.Edges {
+					if c, ok := e.(*ssa.Const); ok && c.Value != nil && c.Value.Kind() == constant.Bool && constant.BoolVal(c.Value) {
+						continue
+					}
+					pred := x.Block().Preds[k]
+					if blockExitsLoopFromInside(pred, x.Block()) {
+						early = "the verdict becomes false (or a computed value) on an exit from inside the loop over the bases at " + pos(r, pred.Instrs[len(pred.Instrs)-1])
 					}
 				}
 			}
-			ls := r.P.SliceOf(ret.Results[0], core.SliceOpts{Depth: -1})
-			fromHost := false
-			for _, p := range f.Params {
-				if ls.HasValue(p) {
-					fromHost = true
+			if call == nil {
+				continue
+			}
+			var mf *ssa.Function
+			if sc := core.StaticCallee(call); sc != nil && r.P.IsRepo(sc) {
+				mf = sc
+			} else if ld, ok := call.Call.Value.(*ssa.UnOp); ok {
+				// closure stored in a local: find the MakeClosure stored there
+				if a, ok := ld.X.(*ssa.Alloc); ok {
+					for _, ref := range *a.Referrers() {
+						if st, ok := ref.(*ssa.Store); ok {
+							if mc, ok := st.Val.(*ssa.MakeClosure); ok {
+								mf, _ = mc.Fn.(*ssa.Function)
+							}
+						}
+					}
+				} else if fv, ok := ld.X.(*ssa.FreeVar); ok {
+					mf = closureBoundTo(m.ctor, fv)
+				}
+			} else if mc, ok := call.Call.Value.(*ssa.MakeClosure); ok {
+				mf, _ = mc.Fn.(*ssa.Function)
+			}
+			if mf == nil {
+				continue
+			}
+			for _, ret := range core.Returns(mf) {
+				if idx >= len(ret.Results) {
+					continue
+				}
+				k, isConst := ret.Results[idx].(*ssa.Const)
+				if isConst && k.Value != nil && k.Value.Kind() == constant.Bool && !constant.BoolVal(k.Value) {
+					if exitsLoopFromInside(ret) {
+						early = "the matcher rejects from inside the loop over the bases at " + pos(r, ret)
+					}
+					continue
+				}
+				if !isConst && exitsLoopFromInside(ret) {
+					early = "the matcher returns a computed verdict from inside the loop over the bases at " + pos(r, ret)
+					continue
+				}
+				s2, n2 := evidence(core.GuardsOf(ret))
+				if !isConst {
+					// computed verdict outside a loop: the tests must be part of the expression
+					vs := r.P.SliceOf(ret.Results[idx], core.SliceOpts{Depth: -1})
+					s2 = s2 || vs.HasCallTo("strings.HasSuffix")
+					for _, cn := range dotCalls {
+						n2 = n2 || vs.HasCallTo(cn)
+					}
+				}
+				suffix = suffix || s2
+				nodot = nodot || n2
+				if !s2 || !n2 {
+					suffix, nodot = suffix && s2, nodot && n2
 				}
 			}
-			r.Check(suffix && nodot && fromHost, "R16.7", key(fname(r, f), "label accepted only as <label>.<base>", sprintf("#%d", n)), pos(r, ret),
-				"suffix test and single-label test guard acceptance", sprintf("a host is accepted as <label>.<base> without %s: hosts that are not a single label before a configured base no longer fall back to path-style", missing(suffix, nodot, fromHost)))
 		}
-	}
+		r.Check(suffix && nodot, "R16.7", key(fname(r, m.serve), "label accepted only as <label>.<base>"), pos(r, in),
+			"suffix test and single-label test guard the rewrite", sprintf("a host is treated as <label>.<base> without %s: hosts that are not a single label before a configured base no longer fall back to path-style", missing(suffix, nodot, true)))
+		r.Check(early == "", "R16.7", key(fname(r, m.serve), "search continues after a failed base"), pos(r, in),
+			"a base that fails a test does not end the search", early+": a host that fails the single-label test against one base is never tried against a later (longer) base")
+	})
 	if n == 0 {
-		r.Unresolved("R16.7: no matcher with an accepting return found in hostBucketBaseMiddleware")
+		r.Unresolved("R16.7: no URL.Path store in the base middleware")
 	}
 	// the bases are built from the configured list
 	bs := false
+	for _, f := range m.funcs() {
+		core.Instrs(f, func(in ssa.Instruction) {
+			if fa, ok := in.(*ssa.FieldAddr); ok && r.P.FieldName(fa) == "gofakes3.GoFakeS3.hostBucketBases" {
+				bs = true
+			}
+		})
+	}
+	r.Check(bs, "R16.7", key(fname(r, m.ctor), "bases from the option"), r.P.Pos(m.ctor.Pos()), "the matcher's bases come from hostBucketBases", "the base middleware does not read the configured host bases")
+}
+
+// closureBoundTo finds, in ctor, the closure stored in the cell that the free
+// variable fv of one of ctor's closures is bound to.
+func closureBoundTo(ctor *ssa.Function, fv *ssa.FreeVar) *ssa.Function {
+	var out *ssa.Function
 	core.Instrs(ctor, func(in ssa.Instruction) {
-		if fa, ok := in.(*ssa.FieldAddr); ok && r.P.FieldName(fa) == "gofakes3.GoFakeS3.hostBucketBases" {
-			bs = true
+		mc, ok := in.(*ssa.MakeClosure)
+		if !ok || mc.Fn != fv.Parent() {
+			return
+		}
+		for i, b := range mc.Bindings {
+			if i < len(fv.Parent().FreeVars) && fv.Parent().FreeVars[i] == fv {
+				if a, ok := b.(*ssa.Alloc); ok {
+					for _, ref := range *a.Referrers() {
+						if st, ok := ref.(*ssa.Store); ok {
+							if c, ok := st.Val.(*ssa.MakeClosure); ok {
+								out, _ = c.Fn.(*ssa.Function)
+							}
+						}
+					}
+				}
+			}
 		}
 	})
-	r.Check(bs, "R16.7", key(fname(r, ctor), "bases from the option"), r.P.Pos(ctor.Pos()), "the matcher's bases come from hostBucketBases", "the base middleware does not read the configured host bases")
+	return out
+}
+
+// blockExitsLoopFromInside: the edge pred -> to leaves a loop from a block other than the loop's head.
+func blockExitsLoopFromInside(pred, to *ssa.BasicBlock) bool {
+	fn := pred.Parent()
+	for _, t := range fn.Blocks {
+		for _, h := range t.Succs {
+			if !h.Dominates(t) {
+				continue
+			}
+			in := map[*ssa.BasicBlock]bool{h: true, t: true}
+			work := []*ssa.BasicBlock{t}
+			for len(work) > 0 {
+				b := work[len(work)-1]
+				work = work[:len(work)-1]
+				if b == h {
+					continue
+				}
+				for _, p := range b.Preds {
+					if !in[p] {
+						in[p] = true
+						work = append(work, p)
+					}
+				}
+			}
+			if in[to] {
+				continue
+			}
+			// walk back from pred through non-loop blocks
+			seen := map[*ssa.BasicBlock]bool{}
+			stack := []*ssa.BasicBlock{pred}
+			for len(stack) > 0 {
+				b := stack[len(stack)-1]
+				stack = stack[:len(stack)-1]
+				if seen[b] {
+					continue
+				}
+				seen[b] = true
+				if in[b] {
+					if b != h {
+						return true
+					}
+					continue
+				}
+				stack = append(stack, b.Preds...)
+			}
+		}
+	}
+	return false
 }
 
 func missing(suffix, nodot, fromHost bool) string {
@@ -684,4 +864,111 @@ func missing(suffix, nodot, fromHost bool) string {
 	}
 	sort.Strings(m)
 	return strings.Join(m, " and ")
+}
+
+// exitsLoopFromInside reports whether ret is reached from inside a loop other
+// than through the loop's head (i.e. it is an early exit, not the code after the loop).
+func exitsLoopFromInside(ret *ssa.Return) bool {
+	fn := ret.Parent()
+	// natural loops: back edge t->h with h dominating t
+	for _, t := range fn.Blocks {
+		for _, h := range t.Succs {
+			if !h.Dominates(t) {
+				continue
+			}
+			// loop blocks: h plus everything that reaches t without passing h
+			in := map[*ssa.BasicBlock]bool{h: true, t: true}
+			work := []*ssa.BasicBlock{t}
+			for len(work) > 0 {
+				b := work[len(work)-1]
+				work = work[:len(work)-1]
+				if b == h {
+					continue
+				}
+				for _, p := range b.Preds {
+					if !in[p] {
+						in[p] = true
+						work = append(work, p)
+					}
+				}
+			}
+			if in[ret.Block()] {
+				return true
+			}
+			// walk back from the return through non-loop blocks; entering the loop at a block other than h = early exit
+			seen := map[*ssa.BasicBlock]bool{ret.Block(): true}
+			work = []*ssa.BasicBlock{ret.Block()}
+			for len(work) > 0 {
+				b := work[len(work)-1]
+				work = work[:len(work)-1]
+				for _, p := range b.Preds {
+					if in[p] {
+						if p != h {
+							return true
+						}
+						continue
+					}
+					if !seen[p] {
+						seen[p] = true
+						work = append(work, p)
+					}
+				}
+			}
+		}
+	}
+	return false
+}
+
+// fwd is one way a middleware hands a request to the next handler: the request
+// value on that way and the instruction that stands for "that way was taken"
+// (the call itself, or the end of the predecessor block when the request is a
+// phi merging several ways into one ServeHTTP call).
+type fwd struct {
+	call ssa.CallInstruction
+	val  ssa.Value
+	at   ssa.Instruction
+	idx  string
+}
+
+func forwards(r *core.Run, f *ssa.Function) []fwd {
+	var out []fwd
+	for i, c := range r.P.CallsIn(f, false, core.NameIs("invoke:net/http.Handler.ServeHTTP")) {
+		args := c.Common().Args
+		if len(args) != 2 {
+			continue
+		}
+		if ph, ok := args[1].(*ssa.Phi); ok && (ph.Block() == c.Block() || ph.Block().Dominates(c.Block())) {
+			for k, e := range ph.Edges {
+				pred := ph.Block().Preds[k]
+				out = append(out, fwd{c, e, pred.Instrs[len(pred.Instrs)-1], sprintf("#%d.%d", i, k)})
+			}
+			continue
+		}
+		out = append(out, fwd{c, args[1], c.(ssa.Instruction), sprintf("#%d", i)})
+	}
+	return out
+}
+
+// reachesAt reports whether instruction a can execute before the way `at`.
+func reachesAt(a, at ssa.Instruction) bool {
+	if a.Block() == at.Block() {
+		return core.InstrIndex(a) < core.InstrIndex(at)
+	}
+	return core.Reaches(a, at)
+}
+
+// isMarked reports whether v is the incoming request passed through the
+// host-addressed mark (withHostBucket), possibly via further context copies.
+func isMarked(r *core.Run, v ssa.Value, mark *ssa.Function, depth int) bool {
+	c, ok := v.(*ssa.Call)
+	if !ok || depth > 3 || mark == nil {
+		return false
+	}
+	if core.StaticCallee(c) == mark {
+		return true
+	}
+	if r.P.CalleeName(c) == "(*net/http.Request).WithContext" {
+		return isMarked(r, c.Call.Args[0], mark, depth+1)
+	}
+	return false
 }
